@@ -348,6 +348,8 @@ def b_setattr(ex, args, kwargs, line):
 
 def b_hasattr(ex, args, kwargs, line):
     obj, name = args
+    if isinstance(obj, (str, int, SStr, SInt, SBool, bool, float, SFloat)):
+        return hasattr("" if isinstance(obj, (str, SStr)) else 0, name)
     if isinstance(obj, PObj):
         return name in obj.fields or ex.ctx.find_method(obj.cls, name) is not None
     raise Unsupported("hasattr")
